@@ -1,5 +1,6 @@
 """C08 - chain reduction: structure of one reduction step and of the Schur transfer maps (values NOT decided)."""
 import e17_schur, e18_reducer, e8b_matrix, e2_float, e5_locks
+import e33_scans
 
 LEVEL = 'other'
 EXPLANATION = ('One step of ChainReducer replaces d_i by the Schur complement of a permuted partially triangular block and must update the '
@@ -22,6 +23,8 @@ def scope(b):
 
 def run(ctx, rep):
     facts = ctx.facts()
+    rep.rule('E33', e33_scans.__doc__.strip().split('\n')[0])
+    e33_scans.run_for(facts, rep, 'chain reducer', ['chain_reducer'], 1)
     import fixtures
     fixtures.run_controls(rep, ['E2'], lambda: ctx.reload())
     rep.rule('E17', e17_schur.__doc__.strip().split('\n')[0])
